@@ -146,6 +146,20 @@ def run(ctx: Ctx) -> None:
         elif a is not None and "token_map" in norm(a):
             push_ok = True
     init_ok = any("token_map[" in norm(x) and "for" in norm(x) for x in walk_local(cb) if isinstance(x, (ast.GeneratorExp, ast.ListComp)))
+    # the push of a nested opener's closer depends on nothing but the map lookup having found one
+    cfgp = pm.cfg("_consume_balanced_tokens")
+    for c in pushes:
+        n = node_containing(cfgp, c)
+        if n is None:
+            continue
+        a = c.args[0] if c.args else None
+        if isinstance(a, ast.Name) and not any("expected" == a.id for _ in [0]):
+            for d, lab in cfgp.control_deps(n):
+                if d.loop is not None:
+                    continue
+                txt = norm(d.cond)
+                if a.id in txt and txt != a.id and txt != f"{a.id} is not None" and "_end_balanced_tokens" not in txt:
+                    push_ok = False
     ctx.ob("R13.4", "parser:CxxParser._consume_balanced_tokens|closer of every opener is pushed", push_ok and init_ok,
            msg="an opener (initial or nested) no longer pushes token_map[its type] on the expectation stack", node=cb, mod=mod)
     check_lifo(ctx, "R13.4", pm)
